@@ -153,7 +153,6 @@ RW2 = [
     dict(rule="R3", re=r"&binary\.operator,", to="string_as_str(&binary.operator),", why="&String -> &str coercion made explicit"),
     dict(rule="R3", re=r"(\w+(?:\.\w+)*)\.statements\.last\(\)", to=r"last_stmt(&\1.statements)", why="slice::last shim"),
     dict(rule="R9", re=r"let len = map\.pairs\.len\(\) \* 2;", to="proof { axiom_pairs_len(&map.pairs); } let len = map.pairs.len() * 2;", why="assumption (listed): a vector of two-expression pairs has fewer than usize::MAX / 2 elements (allocation limit)"),
-    dict(rule="R3", re=r"self\.compile_match_expression\(", to="compile_match_expression_shim(self, ", why="compile_match_expression behind the common contract (not yet verified)"),
     dict(rule="R3", re=r"self\.scopes\[self\.scope_index\]\.scope_depth -= 1;", to=r"let verif_i = self.scope_index; let mut verif_sc = scope_take(&mut self.scopes, verif_i); verif_sc.scope_depth -= 1; scope_put(&mut self.scopes, verif_i, verif_sc);", why="update of a field of a Vec element -> take/modify/put back"),
     dict(rule="R3", re=r"self\.scopes\[self\.scope_index\]\.scope_depth \+= 1;", to=r"let verif_i = self.scope_index; let mut verif_sc = scope_take(&mut self.scopes, verif_i); proof { axiom_depth_bounded(&verif_sc); } verif_sc.scope_depth += 1; scope_put(&mut self.scopes, verif_i, verif_sc);", why="update of a field of a Vec element -> take/modify/put back; assumption (listed): the block depth (one per nested block of the source text) stays below usize::MAX"),
 ]
@@ -278,6 +277,29 @@ COMPILE = [
                 dict(rule="R9g", re=r"(let num_locals = )", to=r"let ghost verif_b = *self; \1", why="ghost snapshot at the end of the filter body"),
                 dict(rule="R9g", re=r"(let instructions = self\.leave_scope\(\);)", to=r"\1 proof { lemma_left(old(self), &verif_e, &verif_b, self); } let ghost verif_l = *self;", why="proof hint: leaving the scope restores the enclosing scope's stream"),
                 dict(rule="R9g", re=r"\n(\s*)Ok\(\(\)\)(\s*\}\s*)$", to=r"\n\1proof { lemma_gen_refl(&verif_l, self); }\n\1Ok(())\2", why="proof hint at the accepting exit")]),
+    m("compile_match_expression", ret="r", requires=PRE, ensures=GEN, prologue=BCAST + REFL, attrs=NODEC + ["#[verifier::rlimit(600)]"],
+      rewrites=[dict(rule="R3", re=r"match_expr\.arms\.first\(\)\.unwrap\(\)\.patterns\.first\(\)\.unwrap\(\)", to="first_pattern(&match_expr.arms)", expect=1, why="assumption (listed): at least one arm with at least one pattern"),
+                dict(rule="R5", re=r"for \(idx, arm\) in match_expr\.arms\.iter\(\)\.enumerate\(\) (/\*@L0@\*/)\{(/\*@LB0@\*/)", expect=1, strict=True,
+                     to=r"let mut idx: usize = 0; while idx < match_expr.arms.len() \1{ let arm = &match_expr.arms[idx]; \2", why="enumerate over a slice -> index loop"),
+                dict(rule="R5", re=r"/\*@LE0@\*/", to=" idx += 1; ", expect=1, strict=True, why="index increment of the enumerate loop (the body has no continue)"),
+                dict(rule="R5", re=r"for pattern_variant in &arm\.patterns (/\*@L1@\*/)\{(/\*@LB1@\*/)", expect=1, strict=True,
+                     to=r"let mut verif_pi: usize = 0; while verif_pi < arm.patterns.len() \1{ let pattern_variant = &arm.patterns[verif_pi]; verif_pi += 1; \2", why="iteration over &Vec -> index loop in the same order"),
+                dict(rule="R5", re=r"for jump_pos in jump_body_v (/\*@L2@\*/)\{(/\*@LB2@\*/)", expect=1, strict=True,
+                     to=r"let mut verif_j: usize = 0; while verif_j < jump_body_v.len() \1{ let jump_pos = jump_body_v[verif_j]; verif_j += 1; \2", why="consuming iteration over Vec<usize> -> index loop in the same order"),
+                dict(rule="R5", re=r"for jump_pos in jump_end_v (/\*@L3@\*/)\{(/\*@LB3@\*/)", expect=1, strict=True,
+                     to=r"let mut verif_j: usize = 0; while verif_j < jump_end_v.len() \1{ let jump_pos = jump_end_v[verif_j]; verif_j += 1; \2", why="consuming iteration over Vec<usize> -> index loop in the same order"),
+                dict(rule="R3", re=r"first\.matches_type\(pattern_variant\)", to="pattern_matches_type(first, pattern_variant)", expect=1, why="MatchPattern::matches_type shim (its value only selects a diagnostic)"),
+                dict(rule="R1", re=r"(\w+)\.value\.clone\(\)", to=r"string_clone(&\1.value)", why="String::clone shim"),
+                dict(rule="R1", re=r"arm\.body\.clone\(\)", to="block_clone(&arm.body)", expect=1, why="derived Clone -> structural-copy shim"),
+                dict(rule="R3", re=r"r\.operator == \"\.\.\"", to='str_is(string_as_str(&r.operator), "..")', expect=1, why="String == &str -> shim"),
+                dict(rule="R0", re=r"let mut jump_end_v = Vec::new\(\);", to="let mut jump_end_v: Vec<usize> = Vec::new();", expect=1, why="element type written out"),
+                dict(rule="R0", re=r"let mut jump_body_v = Vec::new\(\);", to="let mut jump_body_v: Vec<usize> = Vec::new();", expect=1, why="element type written out")],
+      loops={0: dict(invariant=["idx <= match_expr.arms@.len()", "gen(old(self), self)", "jumps_ok(self, old(self), jump_end_v@, 0)"], decreases="match_expr.arms@.len() - idx", body_prologue=BCAST),
+             1: dict(invariant=["verif_pi <= arm.patterns@.len()", "gen(old(self), self)", "jumps_ok(self, old(self), jump_end_v@, 0)", "jumps_ok(self, old(self), jump_body_v@, 0)"], decreases="arm.patterns@.len() - verif_pi", body_prologue=BCAST),
+             2: dict(invariant=["verif_j <= jump_body_v@.len()", "gen(old(self), self)", "jumps_ok(self, old(self), jump_end_v@, 0)", "jumps_ok(self, old(self), jump_body_v@, verif_j as int)",
+                                "is_start(self, jump_over_body as int)", "op_at(code(self), jump_over_body as int) == Opcode::Jump", "jump_over_body >= code(old(self)).len()", "fresh(&sc(self))", "code(self).len() > code(old(self)).len()"],
+                     decreases="jump_body_v@.len() - verif_j", body_prologue=BCAST),
+             3: dict(invariant=["verif_j <= jump_end_v@.len()", "gen(old(self), self)", "jumps_ok(self, old(self), jump_end_v@, verif_j as int)"], decreases="jump_end_v@.len() - verif_j", body_prologue=BCAST)}),
     m("enter_scope", requires=PRE,
       ensures=["cwf(final(self))", "final(self).scope_index == old(self).scope_index + 1", "final(self).scopes@.len() == old(self).scopes@.len() + 1",
                "forall|j: int| 0 <= j < old(self).scopes@.len() ==> final(self).scopes@[j] == old(self).scopes@[j]",
